@@ -28,3 +28,8 @@ package mapper
 //@ modifies nothing
 //@ ensures_ok result0 != nil && fresh(result0) && result0.Column == condCol(data.Obj, field) && result0.Function == function && result0.Value == condVal(data.Obj, field, value)
 
+//@ func (Mapper).NewRow group c15
+//@ trusted "reflection over the model and the schema (FieldByColumn, NativeToOvs); reads only, returns a new row"
+//@ modifies nothing
+//@ ensures_ok result0 != nil && fresh(result0)
+
